@@ -11,7 +11,7 @@ CHECKS = {
  "C06": ("exhaustive product logs x (begin,end) x commands x flag position x time zone within the stated window; differential oracle against the same command on the physically restricted log", "§4 C06"),
  "C07": ("exhaustive enumeration of small books (three nesting levels, both visiting directions) x logs over 7 foods (path-prefix foods, exotic name, directly logged element) x periods, plus a large log; ~20 commands per input, relations checked in exact decimal arithmetic", "§4 C07; §9"),
  "C11": ("exhaustive enumeration of all ingredient graphs on 3 (quick) / 4 (thorough) recipes x depth limits x both entry points x every map visiting order, executed on the real resolver", "§4 C11"),
- "C12": ("all append histories up to depth 4 (quick) / 6 (thorough) over 9 day blocks (incl. exotic names and a 70-entry day) x 2 three-level books; concatenation law for 10 per-day commands (with and without a period) and element-wise-sum law for 6 period commands on every edge of the history tree", "§4 C12; §9"),
+ "C12": ("all append histories up to depth 4 (quick) / 5 (thorough) over 10 day blocks (incl. exotic names and a 70-entry day) x 2 three-level books; concatenation law for 10 per-day commands (with and without a period) and element-wise-sum law for 6 period commands on every edge of the history tree", "§4 C12; §9"),
  "C15": ("full product of register presentation flags x all small logs over a book with empty recipes; record equality, per-day interleaving law, colour law, shortening law; balance display modes on all prefix-free subsets; --desc law", "§4 C15; §9"),
 }
 CHECKS.update({
